@@ -90,7 +90,29 @@ CHECKS = {
    text="TLC shows that DecAdd/DecSub/DecMul/DecCmp on digit sequences agree with native integer arithmetic for all operand pairs in -60..60 at all scale pairs 0..2 and do not depend on leading/trailing zeros. Real runs: every boundary integer of [-2^63, 2^64) (2^63+-1, 2^64-1, 2^53+-1, 2^k+-1, ...) through 32 non-arithmetic function forms and through generated pipelines (select, sort, group, unique, skip/take) must come out digit for digit; sort / sort_by of such integers must be a permutation; 1 200 (120 000) number-as-string operations on decimal strings of up to 60 digits, scale <= 40, exponent <= +-100 in varied spellings are compared numerically with the exact result.",
    note='Trusted: the Rust harness; TLC; the extraction of the function table and documentation examples from the sources. Eval is written from the documentation; where it is silent or self-contradictory the result is Unspec and is never compared (DESIGN.md Appendix D).' + " The spelling of a number-as-string result is free.", design="DESIGN.md section 6 C19"),
 }
+# what the checks gained after the first build (kept separate so that the table above stays readable)
+ADDED = {
+ "C03": (" + the call protocol of the machine (MC_Pipe: WellNested, StartsFirst, CompleteDiscipline, HeadStops, BreakPropagates, LimiterLatched, PrintedAreLogged) and call-level trace validation through the jawk_verif hook (Trace_Pipe!CheckCalls, reported as drift)",
+         " For every run compared with Ref the start / process / complete calls of every stage recorded by the jawk_verif hook are compared, event for event, with the call log of the machine (drift only). Neutral variations (JSON style, regex cache size, error policy, file delivery, short reads) are mixed in."),
+ "C04": (" + Regex.tla (leftmost-first meaning of a regular-expression fragment) for match / extract_regex_group and an RFC 4648 transcription for base64",
+         " Regular expressions generated from ASTs (and texts the compiler refuses), base64 encodings with single-fault corruptions, shadowing binders and neighbouring 64-bit integers through the comparison and sort functions are compared with Eval as well."),
+ "C06": (" + the same runs repeated through the real executable", " A sample of the runs is repeated through the real executable: its stdout and exit status must be those of jawk::go; text and csv sinks are included."),
+ "C07": (" + order axioms on observed comparisons (Trace_Expr kind=axioms)",
+         " For universes with several objects the observed answers of <= and < on every ordered pair must form one total preorder that sort and --sort-by follow (stable)."),
+ "C08": (" + TopN.tla: the top-N shortcut as an inductive invariant (TLC reachability; thorough: Apalache base case and step for arbitrary integer keys)", ""),
+ "C12": (" + twin runs: a --set binding in every option position against the written-out options", ""),
+ "C13": (" + ExprSyntax.tla reads every generated spelling (Trace_Syntax) + twin runs (bound vs written out) in every option position", ""),
+ "C17": (" + directory arguments (rows = rows of the files, any order), file names out of lexicographic order, selectors on derived contexts", ""),
+ "C18": (" + ExprSyntax.tla decides acceptance of every corrupted option value (Trace_Syntax)", ""),
+}
+
+
 def main():
+    for pid, (tech, text) in ADDED.items():
+        CHECKS[pid]["technique"] += tech
+        CHECKS[pid]["text"] += text
+        if pid == "C17":
+            CHECKS[pid]["note"] = CHECKS[pid]["note"].replace(" Directories are not used as inputs.", "")
     checks = []
     for pid in ALL:
         if pid not in CHECKS:
